@@ -19,7 +19,14 @@ def probe(K, b, texts, keynames, keep=None, obj=None):
     e = {"bytes": list(b), "built": False, "strok": False, "printok": False, "rc": -1, "valid": 0, "key": -1,
          "asc": -1, "ascq": -1, "has_text": False, "has_key": False}
     try:
-        x = K(bytes(b)) if obj is None else obj
+        if obj is None and sum(b) % 2:
+            # the binding hands its sense area over as it is and uses it again for the next command: what the
+            # error reports is what the area held when the error was raised
+            area = bytearray(b)
+            x = K(area)
+            area[:] = bytes((v ^ 0xFF) & 0xFF for v in area)
+        else:
+            x = K(bytes(b)) if obj is None else obj
         e["built"] = True
         if keep is not None:
             keep.append(x)
